@@ -7,6 +7,7 @@ no window), unknown window [None,None]} x min_line_confidence in {0, 0.5} x base
 touching / not touching each page edge, integer and fractional coordinates;
 (ii-b) all ordered pairs and triples of lines over a 7-text alphabet mixing Latin / Arabic script and word-border punctuation,
      in one block or two, alignable or without logits (a line's words must not depend on its neighbours);
+ (ii-c) very wide lines: 499..2100 logit frames with the text aligned near the start / middle / end;
  (iii) Arabic lines: all strings <= La over {beh, alef, x, 1, ' '} in alignable and fallback mode;
 (iv) logical/label order conversion: ALL strings of length <= Lo over {beh, alef, x, 1, ' ', '.', arabic comma}.
 
@@ -62,6 +63,7 @@ def shards(tier):
             for p in itertools.product(range(n), repeat=2):
                 out.append({'kind': 'text', 'L': L, 'prefix': list(p), 'reduced': L > b['L']})
     out.append({'kind': 'structure'})
+    out.append({'kind': 'long'})
     for i in range(len(MULTI_TEXTS)):
         out.append({'kind': 'multi', 'first': i})
     for L in range(1, b['La'] + 1):
@@ -110,6 +112,11 @@ def run_shard(shard, ctx, tier):
                         continue
                     for texts in itertools.product(range(len(LINE_TEXTS)), repeat=total):
                         guarded_check(mod, {'structure': {'boxes': list(boxes), 'counts': list(cnt), 'texts': list(texts)}}, ctx)
+    elif shard['kind'] == 'long':
+        for T in LONG_T:
+            for place in ('start', 'middle', 'end'):
+                for text in ('ab', 'a b a', 'b'):
+                    guarded_check(mod, {'long': [T, place, text]}, ctx)
     elif shard['kind'] == 'multi':
         n = len(MULTI_TEXTS)
         for rest in itertools.chain(itertools.product(range(n), repeat=1), itertools.product(range(n), repeat=2)):
@@ -331,6 +338,21 @@ def check_export(page, minconf, ctx, K, desc, sub, frac=False):
     if back != all_words:
         ctx.violation('reimport-returns-same-words', f'{K}/reimport-differs', f'{desc}: exported {all_words}, re-imported {back}', sub)
         return None
+    # the re-imported page can be exported again (its polygons are plain lists) and still carries the same words
+    if len(all_words) and sum(len(x) for x in all_words) <= 4:
+        try:
+            xml2 = p2.to_altoxml_string()
+            ctx.executed()
+            again = [[ln['words'] for ln in blk['lines']] for blk in parse_alto(xml2)['blocks']]
+        except Exception as e:  # noqa
+            ctx.violation('export-always-succeeds', f'{K}/re-export-of-imported-page-raises/{type(e).__name__}',
+                          f'{desc}: exporting the re-imported page raised {type(e).__name__}: {e}', sub)
+            return None
+        has_arabic = any(arabic_helper().is_arabic_line(' '.join(w)) for blk in all_words for w in blk)
+        # (an ALTO file holds Arabic words in logical order; exporting an imported page converts once more, so only Latin pages compare)
+        if not has_arabic and again != [[w for w in blk if w] for blk in all_words]:
+            ctx.violation('reimport-returns-same-words', f'{K}/re-export-differs', f'{desc}: {all_words} vs {again}', sub)
+            return None
     return doc
 
 
@@ -383,6 +405,34 @@ def check_structure(case, ctx):
         ctx.outcome(('structure', len(regs), sum(len(b['lines']) for b in doc['blocks'])))
         if len(regs) == 2:
             ctx.nontrivial(('structure', tuple(st['boxes']), tuple(st['counts']), tuple(st['texts'])), 'two-region-pages')
+
+
+LONG_T = [499, 501, 999, 1001, 1100, 2100]
+
+
+def check_long(case, ctx):
+    """very wide lines: many logit frames, the text aligned near the start / middle / end of the line"""
+    from scipy import sparse
+    from pero_ocr.core.layout import TextLine
+    T, place, text = case['long']
+    C = len(CHARSET)
+    M = np.full((T, C), -6.0)
+    M[:, C - 1] = 6.0
+    n = len(text)
+    first = {'start': 3, 'middle': T // 2 - n, 'end': T - 2 * n - 5}[place]
+    for i, ch in enumerate(text):
+        M[first + 2 * i, CHARSET.index(ch)] = 8.0
+    M += np.linspace(0.01, 0.02, M.size).reshape(M.shape)
+    line = TextLine(id='r1-l001', baseline=np.asarray([[20, 50], [380, 50]], dtype=float),
+                    polygon=np.asarray([[20, 30], [380, 30], [380, 62], [20, 62]], dtype=float), heights=[20, 10], transcription=text,
+                    logits=sparse.csc_matrix(M), characters=list(CHARSET), logit_coords=[0, T])
+    page = make_page([('r1', REGION_BOXES[0], [line])])
+    ctx.state(('long', T, place, text))
+    doc = check_export(page, 0.0, ctx, f'{ID}/long', f'line with {T} logit frames, text {text!r} aligned near the {place}', case)
+    if doc is not None:
+        ctx.outcome(('long', T > 1000))
+        if T > 1000:
+            ctx.nontrivial(('long', T, place, text), 'lines-with-more-than-1000-frames')
 
 
 def check_multi(case, ctx):
@@ -446,6 +496,8 @@ def check_case(case, ctx):
         check_text(case, ctx)
     elif 'structure' in case:
         check_structure(case, ctx)
+    elif 'long' in case:
+        check_long(case, ctx)
     elif 'multi' in case:
         check_multi(case, ctx)
     elif 'arabic' in case:
@@ -467,7 +519,7 @@ def describe(tier):
         'assumptions': ['print space compared exactly for integer region coordinates, within 2 px for fractional ones (values are truncated separately)',
                         'a line counts as dropped iff the confidence the export stored on it is below min_line_confidence'],
         'min_nontrivial': 100,
-        'required_tags': ['mixed-script-pages', 'multi-word-aligned', 'two-region-pages', 'arabic-line-exported', 'order-conversion-reorders',
+        'required_tags': ['lines-with-more-than-1000-frames', 'mixed-script-pages', 'multi-word-aligned', 'two-region-pages', 'arabic-line-exported', 'order-conversion-reorders',
                           'non-ascii-or-tab-white-space', 'fallback-branch', 'line-dropped-by-confidence-filter',
                           'print-space-not-reaching-page-edge'],
     }
